@@ -46,18 +46,30 @@ Theorem C10_entry_points_agree : forall pieces,
 Proof. intros; repeat split; reflexivity. Qed.
 Print Assumptions C10_entry_points_agree.
 
-(* dump to an encoded target: encoding chunk by chunk equals encoding the rendered text,
-   for any encoder that is a monoid homomorphism (utf-8 & co. on valid text) *)
-Theorem C10_dump_encoded : forall (B : Type) (enc : str -> list B),
-  enc [] = [] -> (forall a b, enc (a ++ b) = enc a ++ enc b) ->
-  forall size pieces chunks, stream_buffered size pieces = Ok chunks ->
-  dump_enc B enc chunks = enc (render pieces) /\ dump_enc B enc pieces = enc (render pieces).
+(* dump to an encoded target: feeding the chunks (buffered or not) to ONE incremental encoder and
+   flushing it yields the encoding of the rendered text, for every encoder obeying the law of
+   incremental encoders (feed (a ++ b) = feed a then feed b) — stateful ones that emit a byte
+   order mark first (utf-16, utf-32, utf-8-sig) included *)
+Theorem C10_dump_encoded : forall (B St : Type) (feed : St -> str -> St * list B) (flush : St -> list B),
+  (forall st, feed st [] = (st, [])) ->
+  (forall st a b, feed st (a ++ b) = let '(s1, x) := feed st a in let '(s2, y) := feed s1 b in (s2, x ++ y)) ->
+  forall st0 size pieces chunks, stream_buffered size pieces = Ok chunks ->
+  dump_enc B St feed flush st0 chunks = encode_all B St feed flush st0 (render pieces) /\
+  dump_enc B St feed flush st0 pieces = encode_all B St feed flush st0 (render pieces).
 Proof.
-  intros B enc Hn Ha size pieces chunks H. split.
-  - rewrite (dump_enc_concat B enc Hn Ha). f_equal. exact (C10_buffered_concat size pieces chunks H).
-  - exact (dump_enc_concat B enc Hn Ha pieces).
+  intros B St feed flush Hn Ha st0 size pieces chunks H. split.
+  - rewrite (dump_enc_concat B St feed flush Hn Ha). f_equal. exact (C10_buffered_concat size pieces chunks H).
+  - exact (dump_enc_concat B St feed flush Hn Ha st0 pieces).
 Qed.
 Print Assumptions C10_dump_encoded.
+
+(* why ONE encoder is needed (the defect repaired by the fix: commit): an encoder that emits a
+   mark before its first output encodes two pieces separately differently from their concatenation *)
+Definition bom_feed (st : bool) (s : str) : bool * list N :=
+  match s with [] => (st, []) | _ => (true, (if st then [] else [65279%N]) ++ s) end.
+Theorem C10_per_piece_encoding_refuted :
+  snd (bom_feed false [97%N]) ++ snd (bom_feed false [98%N]) <> snd (bom_feed false [97%N; 98%N]).
+Proof. vm_compute. discriminate. Qed.
 
 (* non-vacuity: a concrete stream with empty pieces, two full chunks and a short last one *)
 Example C10_example :
